@@ -216,10 +216,7 @@ def apply(st, op):
             if any(b not in st.bases[p] for b in bs):
                 return st, False, trig, "not a base", None
             new.bases[p] = [b for b in st.bases[p] if b not in bs]
-            desc = st.descendants(tbl0, p)
-            fam = set(desc) | {p}
-            if any(len([b for b in st.bases[s_] if b in fam]) >= 2 for s_ in desc):
-                trig.add("C03_D3_remove_bases_diamond")   # remove_bases walks the OLD graph breadth first: IndexError half-way
+            # C03-D3 (remove_bases below a diamond) is repaired in /repo: generated
     elif k == "cells":
         p, n = tuple(op[1]), op[2]
         if p not in st.bases:
@@ -271,7 +268,7 @@ def apply(st, op):
         elif k == "setref":
             trig.add("relative_change_unchecked")
         else:
-            trig.add("no_rollback")                 # add_bases / remove_bases / del_ref fail half-way (C11)
+            trig.add("no_rollback")                 # add_bases fails half-way when a relative reference cannot be derived (C11 domain)
         return st, False, trig, None, tbl1
     # ---- accepted: which recorded defects would make the library deviate?
     for (s2, n2), b in B1.items():
